@@ -88,6 +88,9 @@ def check(tier, seed, t0):
     total = 300 if tier == "quick" else 10000
     parts = [("lib", common.run_rgmon("c03", tier, seed)),
              ("cli", common.run_cli_cases("c03", cli_case, seed, "c03cli", total, 25 if tier == "quick" else 100))]
+    if tier == "thorough":
+        import sanitize
+        parts.append(("miri", sanitize.miri_leg("C03", 8)(tier, seed)))
     rep = common.merge_reports(parts)
     return common.finalize("C03", tier, seed, "exploration", RULE, rep, t0, ASSUME,
                            floor_eval=1000, floor_distinct=500)
